@@ -148,7 +148,7 @@ Proof.
   { apply round_generic; auto with typeclass_instances.
     apply generic_format_bpow. unfold FLT_exp. unfold Prec_gt_0 in Hp. apply Z.max_lub; lia. }
   destruct (cdy_small prec emax Hp Hpe 1 (2 - emax)) as (F & E).
-  - rewrite V, R. rewrite Rabs_pos_eq by apply bpow_ge_0. unfold GuardLemmas.M. apply bpow_lt.
+  - rewrite V, R. rewrite Rabs_pos_eq by apply bpow_ge_0. unfold GuardSpec.M. apply bpow_lt.
     unfold Prec_gt_0, Prec_lt_emax in *. lia.
   - unfold GuardSpec.min_normal. rewrite E, V, R. auto.
 Qed.
